@@ -8,6 +8,7 @@ import numpy as np
 from hypothesis import strategies as st
 
 from .. import env, refmath
+from .. import runs_common as rc
 from .. import smc_common as sc
 
 ID = "C18"
@@ -21,7 +22,8 @@ RULE = (
     "(kernel series: one per kernel invocation = iterations + 1 for a final enlargement); sample_history has iterations+1 "
     "entries, entry t carries beta_t (0 first), N particles; ess[t], ess_target[t], eff_target[t], log_norm_ratio[t] equal "
     "their float64 recomputation from entry t-1 and (beta_{t-1}, beta_t); the returned samples are the last entry when no "
-    "enlargement happened. Non-trivial = >=2 iterations or resumed from a checkpoint with >=1 completed iteration."
+    "enlargement happened. One case in seven runs the ensemble-kernel variant (emcee_smc, which records an additional per-kernel series) "
+    "through the problem of the run-based checks, with the length / temperature / size bookkeeping oracles on every populated series. Non-trivial = >=2 iterations or resumed from a checkpoint with >=1 completed iteration."
 )
 ASSUMPTIONS = [
     "kernel packages are harness doubles",
@@ -32,6 +34,14 @@ ASSUMPTIONS = [
 
 @st.composite
 def _case(draw):
+    if draw(st.integers(0, 6)) == 0:
+        # the ensemble-kernel SMC variant (records an additional per-kernel series); bookkeeping oracles only
+        c = draw(rc.run_case(samplers=["emcee_smc"]))
+        c["mode"] = "emcee"
+        c["ckpt_every"] = c["ckpt_every"] or 1
+        c["resume_pick"] = draw(st.integers(0, 50))
+        c["resume_form"] = draw(st.sampled_from(["bytes", "dict", "live-dict"]))
+        return c
     c = draw(sc.table_case(kmin=-1))
     c["ckpt_every"] = draw(st.integers(1, 3))
     c["resume_pick"] = draw(st.integers(0, 50))
@@ -115,7 +125,66 @@ def check_history(case, r, ctx, tag, labels):
             ctx.fail(f"{tag}final-is-last", "returned samples differ from the last stored population", case)
 
 
+def _bookkeeping(case, h, n, enlarged, ctx, tag):
+    """Length / temperature bookkeeping of a history, for every series the sampler populated."""
+    betas = sc.floats(h.beta)
+    n_it = len(betas)
+    for name, v in vars(h).items():
+        if name in ("beta", "sample_history") or not isinstance(v, list) or len(v) == 0:
+            continue
+        kernel = name.startswith("mcmc_")
+        ok = len(v) == n_it + (1 if (kernel and enlarged) else 0)
+        if not ok:
+            ctx.fail(f"{tag}series-length" if not kernel else f"{tag}kernel-series-length",
+                     f"history.{name} has {len(v)} entries for {n_it} iterations (enlargement={enlarged})", case, series=name)
+    pops = h.sample_history
+    if len(pops) != n_it + 1:
+        ctx.fail(f"{tag}population-count", f"sample_history has {len(pops)} entries for {n_it} iterations (expected {n_it + 1})", case,
+                 n_pops=len(pops), iterations=n_it)
+        return n_it
+    for t, p in enumerate(pops):
+        want = 0.0 if t == 0 else betas[t - 1]
+        if p.beta is None or float(p.beta) != want:
+            ctx.fail(f"{tag}population-beta", f"sample_history[{t}].beta={p.beta!r}, expected {want!r}", case)
+        if len(p.x) != n:
+            ctx.fail(f"{tag}population-size", f"sample_history[{t}] has {len(p.x)} particles, run uses {n}", case)
+    return n_it
+
+
+def _emcee_mode(case, ctx):
+    blobs, live = [], []
+
+    def cb(state):
+        blobs.append((state.get("iteration"), pickle.dumps(state)))
+        live.append(state)
+
+    labels = ["emcee_smc", case["ns"], str(case["width"]), "pre:" + case["pre"], "adaptive" if case.get("adaptive") else "fixed"]
+    P = rc.Problem(case)
+    samples, h = P.run(cb)
+    if P.rejected:
+        return {"nontrivial": False, "labels": labels + ["rejected:documented-NaN-ValueError"]}
+    n = case["n"]
+    enlarged = case.get("n_final") in ("smaller", "larger") and P.sample_kwargs().get("n_final_samples") != n
+    n_it = _bookkeeping(case, h, n, enlarged, ctx, "")
+    resumed_nontrivial = False
+    if blobs:
+        k = case["resume_pick"] % len(blobs)
+        it, blob = blobs[k]
+        src = live[k] if case["resume_form"] == "live-dict" else (blob if case["resume_form"] == "bytes" else pickle.loads(blob))
+        P2 = rc.Problem(case)
+        s2, h2 = P2.run(resume_from=src)
+        labels.append(f"resume:{case['resume_form']}")
+        if not P2.rejected:
+            _bookkeeping(case, h2, n, enlarged, ctx, "resumed:")
+            resumed_nontrivial = bool(it and it >= 1)
+            labels.append("resume-from-final" if (it is not None and it >= n_it) else "resume-from-mid" if it else "resume-from-start")
+    labels.append(f"iters:{'1' if n_it == 1 else '2-5' if n_it <= 5 else '>5'}")
+    return {"nontrivial": n_it >= 2 or resumed_nontrivial, "labels": labels}
+
+
 def run_case(case, ctx):
+    if case.get("mode") == "emcee":
+        return _emcee_mode(case, ctx)
     blobs = []
 
     live = []
